@@ -56,6 +56,9 @@ def roots(seed):
         d.update({"fields": ["temp", "density", "Z"], "payload": "hostile_nonan" if name == "3d2" else ["signed", "huge", "pos"], "seed": seed,
                   "time": scope.rotate(scope.TIMES, seed)[0],
                   "layout": [scope.layouts(len(b), 'idrev')[-1] for b in m["levels"]]})
+        if name == "3d3":
+            # (binary file numbers of different widths in this root: Cell_D_99999 / Cell_D_100000 / Cell_D_100001)
+            d["layout"] = [scope.wide_numbers(l_, 1) if len(l_["files"]) > 1 else l_ for l_ in d["layout"]]
         s = dict(d)
         s.update({"fields": ["Zvar", "density", "Y(H2)"], "seed": seed + 1, "payload": "coded",
                   "layout": [scope.layouts(len(b), 'idrev')[len(scope.layouts(len(b), 'idrev')) // 2] for b in m["levels"]]})
